@@ -28,10 +28,10 @@ func init() {
 	vfw.Register(&vfw.Check{
 		ID:    "C13",
 		Level: "exploration",
-		Rule: "two kinds of case. (a) component: a tape-drawn sequence of get/has/set/delete/batch/forward+reverse range iteration on the real copy-on-write store (database.BackedMemDb) over a pre-loaded simulated disk, compared operation by operation with an ordinary ordered map pre-loaded with the same data; " +
-			"(b) in-run: around every proposal building, block validation (accepted and rejected), read-only view and check view of a simulated ledger run the canonical roots, tree versions and the simulated disk's unit counter are compared, and getter values recorded at commit time are compared with read-only views of retained heights taken later while commits, restarts and rollbacks proceed. " +
+		Rule: "two kinds of case. (a) component: a tape-drawn sequence of get/has/set/delete/forward+reverse range iteration and batches (left open across other operations, written or discarded) on the real copy-on-write store (database.BackedMemDb) over a pre-loaded simulated disk, compared operation by operation with an ordinary ordered map pre-loaded with the same data; " +
+			"(b) in-run: around every proposal building, block validation (accepted and rejected), read-only view, check view and read-only RPC query (bcn_estimateRawTx through the real api package) of a simulated ledger run the canonical roots, tree versions and the simulated disk's unit counter are compared, and getter values recorded at commit time are compared with read-only views of retained heights taken later while commits, restarts and rollbacks proceed. " +
 			"non-trivial = (a) sequence with >= 1 shadowed or deleted base key that is later iterated, (b) run with >= 5 historical reads of heights below the head; distinct by history fingerprint",
-		Real:         append(append([]string{}, realLedger...), "database.BackedMemDb + backedMemBatch + merged iterator", "AppState.ForCheck / Readonly / ForCheckWithOverwrite", "tm-db MemDB (inner store of BackedMemDb)"),
+		Real:         append(append([]string{}, realLedger...), "database.BackedMemDb + backedMemBatch + merged iterator", "AppState.ForCheck / Readonly / ForCheckWithOverwrite", "tm-db MemDB (inner store of BackedMemDb)", "api.BlockchainApi.EstimateRawTx over a real consensus.Engine object (state getters only)"),
 		Stub:         stubLedger,
 		Assumptions:  []string{"a historical read of a pruned or rolled-back height may fail; it may never return other values than those recorded at commit time"},
 		QuickSecs:    60,
